@@ -230,15 +230,32 @@ def classify(basis, work, specific, exclude):
             cls[fid] = "sel"
         else:
             cls[fid] = "amb"
-    # path closure: an id sitting (in either tree) at or below the old or new path of a possibly selected
-    # id is involved in the same paths (e.g. the former children of a selected renamed directory); the
-    # statement does not say whether it is selected
+    # Both rules below only ever turn "unsel" into "amb" (the statement does not decide these ids) and
+    # are applied together until nothing changes.
+    #  - ancestors: directories above a (possibly) selected or named new path may have to be committed
+    #    for the recorded tree to be valid;
+    #  - path closure: an id sitting (in either tree) at or below the old or new path of a possibly
+    #    selected id is involved in the same paths (the former children of a selected renamed directory,
+    #    the previous occupant of a name a selected id moves to).
     changed = True
     while changed:
         changed = False
+        for fid in list(cls):
+            new = wpaths.get(fid)
+            named = new is not None and specific is not None and W.inside_any(new, specific)
+            if (cls[fid] != "unsel" or named) and fid in work:
+                p = work[fid][0]
+                seen = set()
+                while p in work and p not in seen:
+                    seen.add(p)
+                    if cls.get(p) == "unsel":
+                        cls[p] = "amb"
+                        changed = True
+                    p = work[p][0]
         touched = set()
         for fid, c in cls.items():
-            if c != "unsel":
+            # only ids whose location changes free or occupy a path (an unchanged directory does not)
+            if c != "unsel" and (basis.get(fid) or (None, None))[:2] != (norm(work.get(fid)) or (None, None))[:2]:
                 touched.update(p for p in (bpaths.get(fid), wpaths.get(fid)) if p is not None)
         for fid, c in cls.items():
             old, new = bpaths.get(fid), wpaths.get(fid)
@@ -247,18 +264,6 @@ def classify(basis, work, specific, exclude):
                 if not ((old is None or W.inside_any(old, exclude)) and (new is None or W.inside_any(new, exclude))):
                     cls[fid] = "amb"
                     changed = True
-    # ancestors of a (possibly) selected new path may have to be committed for a valid tree
-    for fid in list(cls):
-        new = wpaths.get(fid)
-        named = new is not None and specific is not None and W.inside_any(new, specific)
-        if (cls[fid] != "unsel" or named) and fid in work:
-            p = work[fid][0]
-            seen = set()
-            while p in work and p not in seen:
-                seen.add(p)
-                if cls.get(p) == "unsel":
-                    cls[p] = "amb"
-                p = work[p][0]
     return cls
 
 
